@@ -175,7 +175,7 @@ pub fn run(tier: &str, seed: u64) -> i32 {
         // wide circuits: hundreds of constraints and commitments
         let subw = format!("c01/{}/wide", c.name());
         let nw = super::scale(tier, 24, 200);
-        rep.outcome.merge(search(&subw, seed, nw, 6000, &|b, col| dispatch(&subw, b, col)));
+        rep.outcome.merge(crate::runner::search_len(&subw, seed, nw, 5000, 9000, &|b, col| dispatch(&subw, b, col)));
     }
     if tier == "thorough" && rep.outcome.found.is_empty() {
         // sizes around large powers of two (one circuit each, all three allocation paths, both phases)
